@@ -1,6 +1,6 @@
 """writes the prompts given to the independent sub-agents that produce seeded property-breaking changes
 (DESIGN sections 11-13). The sub-agent sees the property text, its own scratch worktree and nothing of /verif.
-usage: mutprompt.py <base dir, e.g. /tmp/mut3>"""
+usage: mutprompt.py <base dir, e.g. /tmp/mut3> [4]"""
 import json
 import sys
 
@@ -31,8 +31,14 @@ Leave the worktree clean (`git checkout -- .`, remove stray files and __pycache_
 Practical notes: (1) a script run by path (`python /some/dir/demo.py`) puts the script's directory, not the current directory, first on sys.path and would import an installed copy of orquesta - so start demo.py with `import os, sys; sys.path.insert(0, os.getcwd())` and assert `orquesta.__file__` is under the current directory; run your own scratch scripts the same way. (2) The full test suite takes about 15 s; run at most one pytest process at a time. (3) The suite must report exactly `865 passed`.
 '''
 
+HINT4 = '''This library has already been hardened against the most obvious mistakes in three earlier rounds, most of which changed the two hot functions `update_task_state` and `get_next_tasks` of orquesta/conducting.py. Do NOT put your change there. Prefer the other places that bear on the property: a row or a contextualisation helper of the state machines (orquesta/machines.py), the graph and composer (orquesta/graphing.py, orquesta/composers/native.py), the spec models (rendering, context finalisation, inspection in orquesta/specs/), the expression evaluators and the workflow functions available inside expressions (orquesta/expressions/), the utilities (orquesta/utils/: dictionary merge, jsonify, context, parameters), the smaller helpers of WorkflowState / WorkflowConductor (status predicates, staged-task bookkeeping, route evaluation, terminal context, serialisation, rerun helpers), or statuses/events constants. A mechanism that only shows after several steps (for example a persist/restore in the middle, a second loop iteration, a rerun after a cancel, a retry of a with-items task, an unusual but valid value) is what is wanted.
+
+'''
+
 if __name__ == "__main__":
     base = sys.argv[1].rstrip("/")
+    if len(sys.argv) > 2 and sys.argv[2] == "4":  # wave 4: other places than the two hot functions
+        T = T.replace(T[T.index("This library has already been hardened"):T.index("Also write a demonstration")], HINT4)
     for l in open('/verif/properties.jsonl'):
         p = json.loads(l)
         i = p['id']
